@@ -26,7 +26,7 @@ BOUNDS = {"kernels": "unbounded ints and doubles (NaN excluded), strings <= 2-3 
           "tolerance": "all reals (E2); IEEE: 14-value grid x 8 small ints x both orders x nested/raw",
           "string normalisation": "12-string menu (str.lower/translate on symbolic text does not terminate in reach)",
           "public calls": "values in {-1,0,1}, 4 small lists, every raw/proxy combination", "unit_test": "1..3 cases"}
-OUTSIDE = ["NaN operands (a complement-operator implementation differs from the negated relation only on NaN)", "assert_type / assert_regex / output assertions (regex and output need symbolic text through re / the sandbox)",
+OUTSIDE = ["NaN operands (a complement-operator implementation differs from the negated relation only on NaN)", "output assertions with exact_strings=False; type names given as strings; regex on symbolic text (menus only)",
            "sets and dataclasses in equality_test", "assert_has_attr / has_variable / has_function", "message texts"]
 ASSUMPTIONS = ["floats in CrossHair are IEEE doubles; mixed int/float arithmetic is decided over the reals (E2) and on a concrete grid",
                "calls with a proxied operand execute untraced (concrete values only)", "exec of the (concrete) student function in unit_tests runs untraced",
@@ -124,5 +124,9 @@ def obligations(tier):
     obs.append(Ob("C07.public_kwargs", P, "public_kwargs", 120, what="explanation=/context=/assertion= do not change the verdict"))
     obs.append(Ob("C07.public_unevaluable", P, "public_unevaluable", 120, what="a relation that raises counts as not holding (assertion fails, nothing propagates)"))
     obs.append(Ob("C07.unit_tests", P, "unit_tests", 300, what="unit_test succeeds iff all cases pass; success_count/failure_count are the true counts"))
+    O = "harness/C07_output.py"
+    obs.append(Ob("C07.output_exact", O, "output_exact", 300, what="assert_output / not_output / output_contains / not_output_contains (exact_strings=True) on a sandbox whose stubbed program printed a symbolic text and possibly failed"))
+    obs.append(Ob("C07.regex_menu", O, "regex_menu", 200, what="assert_regex / not_regex / output_regex / not_output_regex vs re.search on 8 patterns x 10 texts"))
+    obs.append(Ob("C07.type_menu", P, "type_menu", 200, what="assert_type / assert_not_type on 10 values x 9 types (unsettled cells skipped); never both pass or both fail"))
     obs.append(Ob("C07.public_reach", P, "public_reach", 60, expect="refute", what="twin: a proxied operand makes assert_less fail"))
     return obs
